@@ -62,6 +62,8 @@ func runAll(c *fw.Ctx) {
 	famDestr(c, e)
 	c.Family("string-iteration", "for-in over all strings of <= 3 (thorough 4) characters of widths 1-4 and U+FFFD x 5 loop forms; model: Go's range")
 	famStringIteration(c)
+	c.Family("closure-instances", "7 programs in which instances of one function literal call each other (tail and non-tail, variadic, in loops); optimizer on/off")
+	famInstances(c)
 }
 
 // Corpus yields the source text of every program of the tier (no arguments needed).
